@@ -30,7 +30,7 @@ def client_side(args, rng):
     for i in range(0, len(codes), per):
         calls = []
         for code in codes[i:i + per]:
-            kind = rng.choice(["upload", "download", "dl_last", "open_r"])
+            kind = rng.choice(["upload", "download", "dl_last", "open_r", "dl_close", "dl_empty"])
             n = rng.choice([1, 4, 5, 8, 15])
             if kind == "upload":
                 calls.append({"api": "upload", "idx": 0x2000, "sub": 0,
@@ -41,6 +41,15 @@ def client_side(args, rng):
             elif kind == "download":
                 calls.append({"api": "download", "idx": 0x2000, "sub": 0, "data": payload(rng, n),
                               "fault": {"kind": "refuse", "step": 0, "code": code}})
+            elif kind == "dl_close":
+                # stream of unknown size: the refusal arrives for the empty closing segment
+                n = rng.choice([1, 6, 7, 8, 14])
+                calls.append({"api": "open_w", "idx": 0x2000, "sub": 0, "data": payload(rng, n), "size": -1,
+                              "buffering": rng.choice([0, 7, 1024]), "chunks": [n], "mode": "wb",
+                              "fault": {"kind": "refuse", "step": 1 + (n + 6) // 7, "code": code}})
+            elif kind == "dl_empty":
+                calls.append({"api": "download", "idx": 0x2000, "sub": 0, "data": [],
+                              "fault": {"kind": "refuse", "step": rng.choice([0, 1]), "code": code}})
             else:
                 # refusal reported on the last segment, as the library's own server does
                 n = rng.choice([5, 7, 8, 14, 15])
